@@ -93,3 +93,16 @@ Definition loop_class_prog : prog :=
                       (SIf (EIsNone (EVar 1)) (SAssign 1 (ECallM (ENew 1 [EVar 2]) 1 [])) SPass)))
              (SReturn (ECond (EIsNone (EVar 1)) (EInt 0%Z) (EVar 1))));
         f_line := 0 |})] |}.
+
+(* hand-written: `break` inside a try whose finally block re-assigns the narrowed local *)
+Definition break_finally_prog : prog :=
+  {| p_classes := [];
+     p_funcs := [(1, {| f_params := [(1, TInt)]; f_ret := TInt; f_body :=
+        SSeq (SDecl 2 (TUnion [TInt; TNone]) ENone)
+       (SSeq (SAssign 2 (EInt 1%Z))
+       (SSeq (SWhile (EBin BLt (EVar 1) (EInt 3%Z))
+                (SSeq (SAssign 1 (EBin BAdd (EVar 1) (EInt 1%Z)))
+                      (SFinally SBreak (SAssign 2 ENone)))
+                SPass)
+             (SReturn (EBin BAdd (EVar 2) (EInt 1%Z)))));
+        f_line := 0 |})] |}.
